@@ -223,6 +223,19 @@ func genWorldPlan(prop string, master uint64, run int) Plan {
 	switch prop {
 	case "C19":
 		pl.Cfg = neutralConfig(r)
+		if r.Chance(1, 5) {
+			// configuration-independent clauses only, see c19Checker; fail-on-validation-error is left
+			// out: it makes setters abort half-way by design, and the states that leaves behind are not
+			// what the statement is about
+			pl.Cfg = genConfig(r, true)
+			var o []OptSpec
+			for _, x := range pl.Cfg.Opts {
+				if x.N != "failOnVE" {
+					o = append(o, x)
+				}
+			}
+			pl.Cfg.Opts = o
+		}
 		b.parse(r.Chance(1, 4))
 		sw := setterWeights(r, []int{3, 1, 1, 4, 4, 4, 1, 1, 1})
 		kw := []int{10, r.Range(0, 4), r.Range(0, 3), r.Range(0, 2)} // set, resolve, clone, observer
@@ -269,7 +282,7 @@ func genWorldPlan(prop string, master uint64, run int) Plan {
 		}
 	case "C05":
 		pl.Cfg = neutralConfig(r)
-		b.g.idna = 0
+		b.g.idna = 2 // IDNA hosts are judged with the implementation's own domain-to-ASCII (model.ToASCIIHook)
 		u := b.parse(false)
 		sw := setterWeights(r, []int{3, 2, 2, 3, 3, 3, 3, 2, 2})
 		for i := 0; i < n; i++ {
